@@ -7,6 +7,12 @@ TRUST = ("Trusted base: go/types, go/ssa, go/packages (golang.org/x/tools v0.29.
          "library functions named in the rules behave as documented. Decides structural necessary conditions only; the clauses not decided are listed in DESIGN.md section 4 under the property and in the evidence file's assumptions.")
 # id -> (claimed, category, technique, text)
 P = {
+ 'C05': (True, 'other', 'dominance facts in the matcher and the parser (exact lookup before scan, HasPrefix(key, entry) guard, single-candidate gates), effect scan of the ambiguity edge, value identity of the lookup key / UsedAlias, who-may-use of the typed text (non-interference)',
+         'For every table and every typed text: an exact name short-circuits the scan, candidates are exactly keys with the typed prefix at the cursor level, >1 candidates can only lead to an error return with no effect, and after resolution only the full declared name is used. Map/HasPrefix semantics trusted.'),
+ 'C06': (True, 'other', 'who-may-write / who-may-call tables over go/ssa (Called, UsedAlias, receiver pointers, Set*, Save), single-record identity in the match block, sibling agreement of the 12 definers and wrappers, New/Value/Save kind-to-field table cross-check',
+         'Ownership argument: the only code that can change a user variable or Called/UsedAlias is reachable from a match of that very record (or SetValue/GetEnv/SetCalled); aliases share the record; definers store the default first and return the registered pointer. User-supplied modifiers not decided.'),
+ 'C07': (True, 'other', 'information-flow of the mode parameter (dominance facts in the splitter, who-may-use in the parser and Parse), AST structural equality of the long-option and Normal-mode branches modulo renaming, rune/byte unit lint, shape checks of the bundling and single-dash arms',
+         'Complete for the clause "long options ignore the mode" and for Normal-mode equivalence; bundling and single-dash rewriting are pinned through structural necessary conditions only (string equalities themselves are value properties).'),
  'C01': (True, 'other', 'regexp/syntax analysis of the splitter patterns, backward provenance slices (token -> splitter -> Save -> receiver variable) with a transformer whitelist, converter identity and err==nil dominance, error-edge reachability, must-pass-through for Called/UsedAlias',
          'Every value path is covered for every input: the regexps admit any value text (newlines included) and any name without "="; no transformer other than the splitter\'s own cuts touches the text; numeric kinds store exactly strconv.Atoi / ParseFloat(_,64) results and only when err == nil, errors are returned; bool stores the negated write-once default, increment current+1, optional-without-value stores nothing. What strconv computes is trusted.'),
  'C02': (True, 'other', 'loop-shape analysis of the MinArgs/MaxArgs intake loops on go/ssa (strict bound, start value, one advance + one Save per iteration inside the natural loop), edge-filtered reachability for the per-kind look-ahead checks, look-ahead/Save converter agreement, append-chain order, first-= split, range-expansion shape, definition-time validation',
